@@ -21,6 +21,8 @@ Rewrites (one site each):
   CTOR-LITERAL   list() -> [] , dict() -> {}
   ADD-UNUSED     an unused local assigned first;  ADD-ASSERT  a vacuous assert first;  ADD-PARAM  a trailing keyword parameter nobody passes
   ADD-METHOD     an unrelated sibling method / function added next to the function
+  EXTRACT        a run of 1-3 simple statements moved into a new sibling helper (method or function) that receives the locals it
+                 reads and returns the locals it defines
 
 Purely static: variants are source files in a temp dir outside /repo and /verif,
 analysed by the same engine, then deleted."""
@@ -229,6 +231,79 @@ def equivalents_of(fn: ast.FunctionDef) -> List[Tuple[str, ast.FunctionDef]]:
                             pos = [j for j, x in enumerate(b) if x is t][0]
                             b[pos], b[pos + 1] = b[pos + 1], b[pos]
                         variant(f"L{a.lineno} SWAP-INDEP {ast.unparse(a)[:30]} <-> {ast.unparse(b2)[:30]}", index[id(a)], swp)
+
+    # --- EXTRACT: statements moved into a new helper
+    is_method = bool(fn.args.args) and fn.args.args[0].arg in ("self", "cls") and not any(ast.unparse(d) in ("staticmethod",) for d in fn.decorator_list)
+    selfname = fn.args.args[0].arg if is_method else None
+    local_names = set(params) | set(stored)
+    xn = [0]
+    for owner, field, blk in blocks:
+        if any(isinstance(p_, (ast.For, ast.While)) for p_ in [owner]) and False:
+            continue
+        for k in range(len(blk)):
+            for ln_ in (1, 2, 3):
+                run = blk[k:k + ln_]
+                if len(run) != ln_:
+                    continue
+                if not all(isinstance(st, (ast.Assign, ast.AugAssign, ast.Expr, ast.If)) for st in run):
+                    continue
+                inner = [x for st in run for x in ast.walk(st)]
+                if any(isinstance(x, (ast.Return, ast.Break, ast.Continue, ast.Yield, ast.YieldFrom, ast.Await, ast.Lambda, ast.Global, ast.Nonlocal, ast.NamedExpr, ast.Delete, ast.Try, ast.With,
+                                      ast.FunctionDef, ast.ClassDef, ast.Starred)) for x in inner):
+                    continue
+                if any(isinstance(st, ast.Expr) and isinstance(st.value, ast.Constant) for st in run):
+                    continue
+                if any(isinstance(x, ast.Call) and isinstance(x.func, ast.Name) and x.func.id in ("super", "locals", "vars") for x in inner):
+                    continue
+                stores_in = [x.id for x in inner if isinstance(x, ast.Name) and isinstance(x.ctx, ast.Store)]
+                comp_bound = {n_.id for x in inner if isinstance(x, ast.comprehension) for n_ in ast.walk(x.target) if isinstance(n_, ast.Name)}
+                loads_in = [x.id for x in inner if isinstance(x, ast.Name) and isinstance(x.ctx, ast.Load) and x.id in local_names and x.id not in comp_bound]
+                inner_ids = {id(x) for x in inner}
+                used_outside = {x.id for x in nodes if isinstance(x, ast.Name) and isinstance(x.ctx, ast.Load) and id(x) not in inner_ids}
+                outs = [n_ for n_ in dict.fromkeys(stores_in) if n_ in used_outside and n_ not in comp_bound]
+                if len(outs) > 1:
+                    continue
+                # outputs must be bound on every path through the run: assigned by a top-level statement of the run, or passed in
+                top_assigned = {t.id for st in run if isinstance(st, ast.Assign) for t in st.targets if isinstance(t, ast.Name)} | {st.target.id for st in run if isinstance(st, ast.AugAssign) and isinstance(st.target, ast.Name)}
+                ins = [n_ for n_ in dict.fromkeys(loads_in) if n_ != selfname]
+                # names read before being assigned inside the run must be inputs; names only assigned need not be
+                if any(o not in top_assigned and o not in ins for o in outs):
+                    continue
+                if any(n_ in stores_in and n_ not in outs and n_ in used_outside for n_ in ins):
+                    continue
+                if ln_ == 1 and isinstance(run[0], ast.Expr) and not outs and not any(isinstance(x, (ast.Attribute, ast.Subscript)) and isinstance(x.ctx, ast.Store) for x in inner) and isinstance(run[0].value, ast.Call) and False:
+                    continue
+                xn[0] += 1
+                if xn[0] > 14:
+                    break
+                hname = f"_extracted_{xn[0]}"
+
+                def extract(new, t, field=field, owner_i=index[id(owner)], k=k, ln_=ln_, ins=ins, outs=outs, hname=hname):
+                    nn = _own_nodes(new)
+                    b = getattr(nn[owner_i], field)
+                    moved = b[k:k + ln_]
+                    body = list(moved)
+                    if outs:
+                        body.append(ast.Return(value=ast.Name(id=outs[0], ctx=ast.Load())))
+                    argnames = ([selfname] if is_method else []) + ins
+                    helper = ast.FunctionDef(name=hname, args=ast.arguments(posonlyargs=[], args=[ast.arg(arg=a_) for a_ in argnames], kwonlyargs=[], kw_defaults=[], defaults=[]),
+                                             body=body, decorator_list=[], returns=None, type_comment=None, type_params=[])
+                    callee = ast.Attribute(value=ast.Name(id=selfname, ctx=ast.Load()), attr=hname, ctx=ast.Load()) if is_method else ast.Name(id=hname, ctx=ast.Load())
+                    call = ast.Call(func=callee, args=[ast.Name(id=a_, ctx=ast.Load()) for a_ in ins], keywords=[])
+                    repl = ast.Assign(targets=[ast.Name(id=outs[0], ctx=ast.Store())], value=call, lineno=moved[0].lineno, col_offset=0) if outs else ast.Expr(value=call)
+                    b[k:k + ln_] = [repl]
+                    new._extracted_helper = helper
+                before = len(out)
+                variant(f"L{run[0].lineno} EXTRACT {ln_} stmt(s) -> {hname}({', '.join(ins)}){' -> ' + outs[0] if outs else ''}", 0, extract)
+                if len(out) > before:
+                    desc_, new_ = out[-1]
+                    helper = getattr(new_, "_extracted_helper", None)
+                    if helper is None:
+                        out.pop()
+                    else:
+                        wrapper = ast.Module(body=[new_, helper], type_ignores=[])
+                        ast.fix_missing_locations(wrapper)
+                        out[-1] = (desc_, wrapper)
 
     def _k0(new):
         return 1 if new.body and isinstance(new.body[0], ast.Expr) and isinstance(new.body[0].value, ast.Constant) and isinstance(new.body[0].value.value, str) else 0
